@@ -580,6 +580,7 @@ def _hutch_worker(task):
     keys = STAT_KEYS[:8] if tier == "quick" else STAT_KEYS
     iters_stat = 10 if tier == "quick" else 16
     viol, runs, samples = [], [], []
+    gs_fail = []
     cnt = {"stat": 0, "exact": 0, "det": 0, "zmax": 0.0}
     A = ctor()
     Md = np.array(C[nm_re], dtype=np.complex128) + (1j * np.array(C[nm_im]) if nm_im else 0)
@@ -601,8 +602,7 @@ def _hutch_worker(task):
                 N += r["iters"] * r["bs"]
                 at = {"routine": "hutch_diag", "key": key, "k": k, "rand": rand, "op": opid}
                 if not r["g_same"]:
-                    viol.append(Violation(PROP, "global_state", f"hutch_diag {opid} k={k} {rand} key={key}", at,
-                                          "np.random.get_state() differs after the call", replay=dict(rp, key=key)))
+                    gs_fail.append((at, dict(rp, key=key)))
                 if key == keys[0]:
                     r["run"]["tid"] = f"{opid}|k={k}|{rand}|key={key}|maxit={iters_stat}|tol=0.0011"
                     runs.append(r["run"])
@@ -660,6 +660,11 @@ def _hutch_worker(task):
             continue
         r["run"]["tid"] = f"{opid}|k={k}|{rand}|key={key}|maxit={mi}|tol={tol}"
         runs.append(r["run"])
+    if gs_fail:
+        at, rp = gs_fail[0]
+        viol.append(Violation(PROP, "global_state", f"hutch_diag {opid} (direct calls)", at,
+                              f"np.random.get_state() differs after {len(gs_fail)} call(s), e.g. k={at['k']} {at['rand']} "
+                              f"key={at['key']}", replay=rp))
     return [v.to_json() for v in viol], runs, cnt, samples
 
 
